@@ -138,7 +138,8 @@ def udt(draw, earlier, used_names, used_tids, depth_of):
             nb = draw(st.integers(1, 8))
             bits = draw(st.permutations(list(range(8))))[:nb]
             for b in (sorted(bits) if draw(st.booleans()) else bits):
-                members.append({"name": draw(ident(mnames, maxlen=8)), "kind": "bit", "type": "BOOL", "array": 0, "offset": off, "bit": b, "hidden": False})
+                hid = draw(st.integers(0, 11)) == 0      # a BOOL member that is itself internal ("__" name): not part of the value
+                members.append({"name": ("__" if hid else "") + draw(ident(mnames, maxlen=8)), "kind": "bit", "type": "BOOL", "array": 0, "offset": off, "bit": b, "hidden": hid})
             off += 1
         else:
             structs = [x for x in nest_ok if x.get("string") is None]
